@@ -84,7 +84,7 @@ var _ = parse.Parse
 
 // ---- C08.3 layout independence: the same token sequence under every separator gives the same meaning ----
 
-var c08Seps = []string{" ", "\n", "\t", "\r\n", "\r", " --c\n", " --[\n", " --[[x]] ", " --[==[x\n]==] ", " --]]\n", "\n\n", " --[=\n"}
+var c08Seps = []string{" ", "\n", "\t", "\r\n", "\r", " --c\n", " --[\n", " --[[x]] ", " --[==[x\n]==] ", " --]]\n", "\n\n", " --[=\n", "\f", "\v", " --[==\r\n", "\n\r"}
 
 type c08prog struct {
 	toks []string
@@ -101,7 +101,7 @@ var c08Progs = []c08prog{
 
 // C08.layout — comment forms, blank space and line ends between tokens do not change the meaning.
 //
-//verif:harness prop=C08 tier=quick qparams=gaps:1 tparams=gaps:2 bounds="6 token sequences; gaps (1 quick / 2 thorough positions chosen per path) filled from 12 separators: blank, tab, LF, CR, CRLF, line comments (incl. the texts `[`, `[=` and `]]`), long comments of level 0 and 2 spanning lines; every other gap is a single blank"
+//verif:harness prop=C08 tier=quick qparams=gaps:1 tparams=gaps:2 bounds="6 token sequences; gaps (1 quick / 2 thorough positions chosen per path) filled from 16 separators: blank, tab, FF, VT, LF, CR, CRLF, LFCR, line comments (incl. the texts `[`, `[=` and `]]`), long comments of level 0 and 2 spanning lines; every other gap is a single blank"
 func H_C08_layout() {
 	p := c08Progs[VChoice(len(c08Progs))]
 	ngaps := VParam("gaps", 2)
